@@ -125,6 +125,7 @@ Smp(T) ==
     [] T[1] \in {"newtype", "alias695"} -> Smp(T[3])
     [] T[1] = "stype" -> LET e == Smp(T[3]) IN [i \in DOMAIN e |-> <<"sobj", T[2], e[i]>>]
     [] T[1] \in {"final", "annotated"} -> Smp(T[2])
+    [] T[1] = "rec695" -> Smp(T[4])
     [] T[1] \in {"fwd", "tvarc", "tvarb"} -> Smp(T[3])
     [] T[1] = "literal" -> [i \in DOMAIN T[2] |-> IF T[2][i][1] = "lenum" THEN <<"enum", T[2][i][2][2], T[2][i][3]>> ELSE T[2][i]]
     [] T[1] = "dc" -> LET fs == T[3] IN
